@@ -37,7 +37,7 @@ func init() {
 			{Name: "l3-daemon-cancel", Fn: scnC13L3, Weight: 1},
 		},
 		Rule: "cancellation injected into each blocking state of each worker (ingester waiting for a writer; blocked reading an idle pipe, each for 0 s to 5 simulated minutes before the cancellation; after the last writer closed the pipe (whatever the ingester does at the end of the stream); audit ingester handing a record downstream " +
-			"with a stopped consumer and buffer capacities {1,2,8,64,10000}, buffer empty or full, cancelled at once or after 2-40 simulated seconds of back-pressure; sshd pipeline handing a login to an unready correlator; audit processor idle / with lines queued / mid-push / during a maintenance flush / with a producer outside the cancelled group that keeps its queue topped up / with 18-47 failures queued behind an incomplete group; ended by a cancel call or by the context's own deadline), " +
+			"with a stopped consumer and buffer capacities {1,2,8,64,10000}, buffer empty or full, the writer still connected or gone, cancelled at once or after 2 s to 5 simulated minutes of back-pressure; sshd pipeline handing a login to an unready correlator for 0 s to 5 simulated minutes; audit processor idle / with lines queued / mid-push / during a maintenance flush / with a producer outside the cancelled group that keeps its queue topped up / with 18-47 failures queued behind an incomplete group; ended by a cancel call or by the context's own deadline), " +
 			"either in the constructively established state or at a tape-chosen scheduler step; plus the assembled daemon cancelled at a taped step under traffic; then a fair schedule with the clock advancing at quiescence: the worker must return within 1 simulated second and 20000 steps " +
 			"and stay silent for 10 further simulated seconds while input remains available; non-trivial = the intended blocking state was reached (probe) before cancel; distinct = distinct (state, capacity, fill, cancel step, schedule hash)",
 		Quick: 6400, Thorough: 200000,
@@ -267,8 +267,15 @@ func scnC13Backpressure(rc *RunCtx) {
 	if isFull && blockedSend() {
 		rc.Sim.Count("chan_full_at_cancel")
 	}
+	// the writer may have gone away (its end of the pipe closed) by the time the cancellation
+	// arrives, with records still queued for a consumer that has stopped
+	if step < 0 && wdone.v && t.Choose(4, "writer.leaves") == 3 {
+		w.Close()
+		rc.Sim.Count("c13.writer_left_with_records_queued")
+		quietFor(rc, 300*time.Millisecond)
+	}
 	// the back-pressure may have lasted for a while when the cancellation arrives
-	waited := []int{0, 0, 2, 7, 40}[t.Choose(5, "blocked.for.s")]
+	waited := []int{0, 0, 2, 7, 40, 90, 300, 0}[t.Choose(8, "blocked.for.s")]
 	if step < 0 && waited > 0 {
 		quietFor(rc, time.Duration(waited)*time.Second)
 		rc.Sim.Count("cancel_after_long_backpressure")
@@ -342,6 +349,14 @@ func scnC13Handoff(rc *RunCtx) {
 	inState := blockedHandoff()
 	if inState {
 		rc.Sim.Count("cancel_in_state_handoff")
+		// the correlator may have been unready for a long time when the cancellation comes
+		if dwell := []time.Duration{0, 0, 3 * time.Second, 70 * time.Second, 5 * time.Minute}[t.Choose(5, "handoff.dwell")]; dwell > 0 && step < 0 {
+			quietFor(rc, dwell)
+			rc.Sim.Count("c13.handoff_dwell_before_cancel")
+			if res.v || !blockedHandoff() {
+				inState = false // it gave up on its own: nothing left to cancel (not C13's business)
+			}
+		}
 	}
 	cancel()
 	rc.Sim.Count("ctx.cancel")
